@@ -17,8 +17,8 @@ BY_CONTENT = {v: k for k, v in FILES.items()}
 PFX = ["/", "/sec", "/sec/", "/sec/pub/", "/pub/"]
 ALLOWS = [None, set(), {"sha256:" + "a" * 64}, {"sha256:" + "b" * 64}]
 FPRINT = [None, "sha256:" + "a" * 64, "sha256:" + "b" * 64]
-SEG = ["sec", "pub", "s", "p", "q", ".", "..", "", "index.gmi", "%73ec", "%2e%2e", "secret.gmi"]
-NSEG = pick(9, len(SEG))
+SEG = ["sec", "pub", "s", "p", "q", "..", "", "%2e%2e", ".", "%73ec", "index.gmi", "secret.gmi", ".%2e", "%2E%2E"]
+NSEG = pick(10, len(SEG))
 FULL = pick(False, True)
 
 
@@ -139,7 +139,7 @@ def spelling3_a(rp: int, s1: int, s2: int, s3: int) -> bool:
 
 def spelling3_b(rp: int, s1: int, s2: int, s3: int) -> bool:
     """
-    pre: 1 <= rp < 5 and 3 <= s1 <= 6 and 0 <= s2 < NSEG and 0 <= s3 < NSEG
+    pre: 1 <= rp < 5 and 3 <= s1 <= 5 and 0 <= s2 < NSEG and 0 <= s3 < NSEG
     post: _
     """
     return V(_spelling(rp, s1, s2, s3, 3, False, False))
@@ -147,7 +147,7 @@ def spelling3_b(rp: int, s1: int, s2: int, s3: int) -> bool:
 
 def spelling3_c(rp: int, s1: int, s2: int, s3: int) -> bool:
     """
-    pre: 1 <= rp < 5 and 7 <= s1 < NSEG and 0 <= s2 < NSEG and 0 <= s3 < NSEG
+    pre: 1 <= rp < 5 and 6 <= s1 < NSEG and 0 <= s2 < NSEG and 0 <= s3 < NSEG
     post: _
     """
     return V(_spelling(rp, s1, s2, s3, 3, False, False))
@@ -256,14 +256,14 @@ FN = ["CertificateAuth._extract_path", "_find_matching_rule", "process_request",
       "ServerConfig.get_certificate_auth_config", "GeminiRequest.from_line"]
 OBLIGATIONS = [
     Ob("spelling2", spelling2, quick=800, thorough=2400,
-       symbolic="a never-admitting rule on one of 5 prefixes; 2 path segments (9 quick / 12 thorough names incl. '.', '..', empty, "
+       symbolic="a never-admitting rule on one of 5 prefixes; 2 path segments (10 quick / 14 thorough names incl. '.', '..', empty, "
                 "pct-encoded), trailing slash, query", functions=FN, stubs=["ModelFS"]),
     Ob("spelling3_a", spelling3_a, quick=600, thorough=2400,
        symbolic="never-admitting rule on 4 prefixes; 3 path segments, first in {sec, pub, s}", functions=FN, stubs=["ModelFS"]),
     Ob("spelling3_b", spelling3_b, quick=600, thorough=2400,
-       symbolic="never-admitting rule on 4 prefixes; 3 path segments, first in {p, q, '.', '..'}", functions=FN, stubs=["ModelFS"]),
+       symbolic="never-admitting rule on 4 prefixes; 3 path segments, first in {p, q, '..'}", functions=FN, stubs=["ModelFS"]),
     Ob("spelling3_c", spelling3_c, quick=600, thorough=2400,
-       symbolic="never-admitting rule on 4 prefixes; 3 path segments, first in {'', index.gmi, ...}", functions=FN, stubs=["ModelFS"]),
+       symbolic="never-admitting rule on 4 prefixes; 3 path segments, first in {'', %2e%2e, '.', %73ec, ...}", functions=FN, stubs=["ModelFS"]),
     Ob("admit", admit, quick=800, thorough=2400,
        symbolic="rule prefix (5), require_cert, allow-list (absent / empty / {A} / {B}), presented fingerprint (none / A / B), "
                 "7 canonical targets (files, directory with/without slash, root, prefix-sharing file), trailing slash",
